@@ -41,7 +41,7 @@ Print Assumptions C07_only_id_and_settings_survive.
     switches, user-set file names), or is cleared at the start of every call / recomputed at its end; no surviving
     switch or name is reset; UnLoadDatabase calls clean_up, init and do_initialize. *)
 Theorem C07_wrapper_reset_covers_every_field :
-  wrapper_reset_ok iphreeqc_members unload_mentions call_start_mentions update_errors_mentions listcomponents_mentions unload_calls = true.
+  wrapper_reset_ok iphreeqc_members unload_mentions unload_writes call_start_mentions update_errors_mentions listcomponents_mentions unload_calls = true.
 Proof. vm_compute. reflexivity. Qed.
 Print Assumptions C07_wrapper_reset_covers_every_field.
 
